@@ -11,6 +11,7 @@ import (
 	"testing"
 	"time"
 
+	"github.com/mithrandie/csvq/lib/parser"
 	"github.com/mithrandie/csvq/lib/query"
 	"pgregory.net/rapid"
 
@@ -58,16 +59,32 @@ const (
 // (so that most programs run long) and injects at most one deliberate
 // undeclared / redeclared use.
 
-type gVar struct{ protected bool }
-type gCur struct{ open bool }
+type gVar struct {
+	protected bool // never assigned (loop counters, the parameter that bounds a recursion)
+	keep      bool // never disposed
+}
+
+// gSig: number of parameters / of required parameters of a declared function.
+type gSig struct {
+	n, req int
+	agg    bool // a user-defined aggregate: called as (SELECT name(column, arguments...) FROM source)
+}
+type gCur struct {
+	open   bool
+	pseudo bool // the pseudo cursor of an aggregate function: always open, cannot be opened / closed / disposed
+}
 
 type gScope struct {
-	parent    *gScope
-	boundary  bool // function body: variables, cursors and tables of outer scopes are not used
-	vars      map[string]*gVar
-	curs      map[string]*gCur
-	tabs      map[string]bool
-	funs      map[string]bool
+	parent   *gScope
+	boundary bool // function body: variables, cursors and tables of outer scopes are not used
+	vars     map[string]*gVar
+	curs     map[string]*gCur
+	tabs     map[string]bool
+	funs     map[string]bool
+	sigs     map[string]gSig // signature of funs[name]; missing = one required parameter
+	recFun   string          // body of a recursive function of this name: no local function takes the name (the recursive calls must reach the function itself)
+	hideFun  string          // body of the function being declared under this name: the name is not called from the
+	// generated statements (it would resolve to the function itself whatever an outer block declared under it)
 	inLoop    bool
 	inFunc    bool
 	depth     int
@@ -77,7 +94,7 @@ type gScope struct {
 }
 
 func newScope(parent *gScope) *gScope {
-	s := &gScope{parent: parent, vars: map[string]*gVar{}, curs: map[string]*gCur{}, tabs: map[string]bool{}, funs: map[string]bool{}}
+	s := &gScope{parent: parent, vars: map[string]*gVar{}, curs: map[string]*gCur{}, tabs: map[string]bool{}, funs: map[string]bool{}, sigs: map[string]gSig{}}
 	if parent != nil {
 		s.inLoop, s.inFunc, s.depth, s.funcDepth = parent.inLoop, parent.inFunc, parent.depth+1, parent.funcDepth
 	}
@@ -125,8 +142,37 @@ func (s *gScope) findFun(name string) bool {
 		if x.funs[name] {
 			return true
 		}
+		if x.hideFun == name {
+			return false
+		}
 	}
 	return false
+}
+
+// recName: name is the recursive function whose body (not counting nested function bodies) s belongs to.
+func (s *gScope) recName(name string) bool {
+	for x := s; x != nil; x = x.parent {
+		if x.recFun == name {
+			return true
+		}
+		if x.boundary {
+			break
+		}
+	}
+	return false
+}
+
+// findSig: the signature of the function a call of name resolves to (as far as the generator tracks).
+func (s *gScope) findSig(name string) gSig {
+	for x := s; x != nil; x = x.parent {
+		if x.funs[name] {
+			if sg, ok := x.sigs[name]; ok {
+				return sg
+			}
+			break
+		}
+	}
+	return gSig{n: 1, req: 1}
 }
 
 func filter(pool []string, ok func(string) bool) []string {
@@ -166,6 +212,7 @@ type gen struct {
 	errAt   int // statement count after which one deliberate error may be injected (-1: never)
 	errDone bool
 	noPrint bool // functions for the concurrent check: no PRINT, no EXIT
+	noExit  bool // session check: no EXIT in the segments before the last one
 	recHi   int  // >0: recursion bound of recursiveBody (deep check); linear recursion only
 	// PREPARE statements collected for the top of the program
 	prologue []ref.PStmt
@@ -174,6 +221,9 @@ type gen struct {
 func (g *gen) id() int { g.nextID++; return g.nextID }
 
 func (g *gen) chance(label string, pct int) bool { return fw.Chance(g.t, label, pct) }
+
+// pct: a fair draw (chance is skewed towards true: rapid favours small integers).
+func (g *gen) pct(label string, pct int) bool    { return fw.Pct(g.t, label, pct) }
 func (g *gen) intn(label string, lo, hi int) int { return rapid.IntRange(lo, hi).Draw(g.t, label) }
 
 func (g *gen) wantError() bool {
@@ -235,7 +285,74 @@ func (g *gen) callExpr(sc *gScope) *ref.PExpr {
 	} else {
 		arg = g.simple(sc, 1)
 	}
-	return &ref.PExpr{K: "call", Name: fw.Pick(g.t, "fun", funs), A: arg}
+	return g.mkCall(sc, fw.Pick(g.t, "fun", funs), arg)
+}
+
+// mkCall builds a call of name whose first argument is first. For functions
+// with several / optional / no parameters the number of arguments is drawn:
+// all required ones plus a prefix of the optional ones (most of the time at
+// least one optional argument is omitted, so that its DEFAULT is evaluated);
+// the further arguments are literals or call-free expressions of the CALLER's
+// scope (which may well hold variables named like the parameters).  One
+// deliberate error: an argument count outside [required, parameters].
+func (g *gen) mkCall(sc *gScope, name string, first *ref.PExpr) *ref.PExpr {
+	sg := sc.findSig(name)
+	bad := g.wantError() && g.pct("argCount", 35)
+	if sg.agg {
+		// the grouped values: the records of a visible temporary table or 1-4 inline records
+		c := &ref.PExpr{K: "aggcall", Name: name}
+		if tabs := sc.visTabs(); len(tabs) > 0 && g.pct("aggOverTable", 50) {
+			c.Tab = fw.PickU(g.t, "aggTab", tabs)
+		} else {
+			n := fw.Range(g.t, "aggRows", 1, 4)
+			for i := 0; i < n; i++ {
+				c.Rows = append(c.Rows, int64(fw.Range(g.t, "aggRow", 0, 9)))
+			}
+		}
+		k := sg.n
+		if sg.n > sg.req && g.pct("omitOptional", 70) {
+			k = fw.Range(g.t, "argc", sg.req, sg.n-1)
+		}
+		if bad {
+			g.errDone = true
+			k = sg.n + 1
+		}
+		for i := 0; i < k; i++ {
+			if g.pct("argLit", 50) {
+				c.Args = append(c.Args, lit(int64(g.intn("arg", 0, 5))))
+			} else {
+				c.Args = append(c.Args, g.simple(sc, 1))
+			}
+		}
+		return c
+	}
+	if sg.n == 1 && sg.req == 1 && !bad {
+		return &ref.PExpr{K: "call", Name: name, A: first}
+	}
+	k := sg.n
+	if sg.n > sg.req && g.pct("omitOptional", 70) {
+		k = fw.Range(g.t, "argc", sg.req, sg.n-1)
+	}
+	if bad {
+		g.errDone = true
+		if sg.req > 0 && g.pct("tooFew", 50) {
+			k = sg.req - 1
+		} else {
+			k = sg.n + 1
+		}
+	}
+	c := &ref.PExpr{K: "call", Name: name, Multi: true, Args: []*ref.PExpr{}}
+	for i := 0; i < k; i++ {
+		switch {
+		case i == 0:
+			c.Args = append(c.Args, first)
+		case g.chance("argLit", 50):
+			c.Args = append(c.Args, lit(int64(g.intn("arg", 0, 5))))
+		default:
+			c.Args = append(c.Args, g.simple(sc, 1))
+		}
+	}
+	return c
 }
 
 // expr: at most one user function call, at the top of the expression.
@@ -315,7 +432,7 @@ func (g *gen) printVisible(sc *gScope, out []ref.PStmt) []ref.PStmt {
 	}
 	if g.chance("obsFun", 30) {
 		for _, f := range sc.visFuns() {
-			out = append(out, g.printStmt(&ref.PExpr{K: "call", Name: f, A: lit(int64(g.intn("arg", 0, 4)))}))
+			out = append(out, g.printStmt(g.mkCall(sc, f, lit(int64(g.intn("arg", 0, 4))))))
 		}
 	}
 	return out
@@ -461,6 +578,10 @@ func (g *gen) statement(sc *gScope) []ref.PStmt {
 		w = 90
 	} else if sc.inFunc && g.chance("funcReturn", 6) {
 		w = 95
+	} else if fw.Uniform(g.t, "dispose", 1000) < 35 {
+		if d, ok := g.disposeStmt(sc); ok {
+			return d
+		}
 	}
 	switch {
 	case w < 14: // variable declaration
@@ -539,6 +660,11 @@ func (g *gen) statement(sc *gScope) []ref.PStmt {
 			}
 			return []ref.PStmt{g.fallback(sc)}
 		}
+		if g.pct("aggregate", 35) {
+			if a, ok := g.aggStmt(sc); ok {
+				return a
+			}
+		}
 		return g.funcStmt(sc)
 	case w < 93: // loop control
 		if !sc.inLoop {
@@ -562,11 +688,140 @@ func (g *gen) statement(sc *gScope) []ref.PStmt {
 		}
 		return g.guarded(sc, j)
 	default: // EXIT
-		if sc.inFunc || g.noPrint || !g.chance("exit", 35) {
+		if sc.inFunc || g.noPrint || g.noExit || !g.chance("exit", 35) {
 			return []ref.PStmt{g.fallback(sc)}
 		}
-		return g.guarded(sc, g.stmt("exit"))
+		ex := g.stmt("exit")
+		if g.pct("exitCode", 30) {
+			ex.N = int64(g.intn("code", 1, 3))
+		}
+		return g.guarded(sc, ex)
 	}
+}
+
+// disposeStmt: DISPOSE @v / DISPOSE FUNCTION f / DISPOSE VIEW t of a visible
+// object - declared in this block or in an outer one (then the disposal
+// persists after the block), possibly one that shadows an outer object of the
+// same name (which is visible again afterwards).  Functions are only disposed
+// in the function body (or top-level program) that declared them.
+func (g *gen) disposeStmt(sc *gScope) ([]ref.PStmt, bool) {
+	vars := filter(sc.setVars(), func(n string) bool { return !sc.findVar(n).keep })
+	var funs []string
+	for x := sc; x != nil; x = x.parent {
+		for _, n := range funPool {
+			if x.funs[n] && !contains(funs, n) {
+				funs = append(funs, n)
+			}
+		}
+		if x.boundary {
+			break
+		}
+	}
+	tabs := sc.visTabs()
+	if sc.inLoop && !g.pct("disposeOuterInLoop", 20) {
+		// in a loop body: mostly objects of the body's own block (an outer object disposed in the
+		// first iteration is missing in the second one, which ends the program early)
+		vars = filter(vars, func(n string) bool { _, ok := sc.vars[n]; return ok })
+		funs = filter(funs, func(n string) bool { return sc.funs[n] })
+		tabs = filter(tabs, func(n string) bool { return sc.tabs[n] })
+	}
+	if g.wantError() && g.pct("disposeMissing", 50) {
+		k := fw.Pick(g.t, "dkind", []string{"disposevar", "disposefun", "disposetab"})
+		var inv []string
+		switch k {
+		case "disposevar":
+			inv = sc.invisVars()
+		case "disposefun":
+			inv = filter(funPool, func(n string) bool { return !sc.findFun(n) })
+		default:
+			inv = filter(tabPool, func(n string) bool { return !sc.findTab(n) })
+		}
+		if len(inv) > 0 {
+			g.errDone = true
+			d := g.stmt(k)
+			d.Name = fw.Pick(g.t, "dmiss", inv)
+			return []ref.PStmt{d}, true
+		}
+	}
+	var kinds []string
+	if len(vars) > 0 {
+		kinds = append(kinds, "disposevar")
+	}
+	if len(funs) > 0 {
+		kinds = append(kinds, "disposefun")
+	}
+	if len(tabs) > 0 {
+		kinds = append(kinds, "disposetab")
+	}
+	if len(kinds) == 0 {
+		return nil, false
+	}
+	d := g.stmt(fw.PickU(g.t, "dkind", kinds))
+	switch d.K {
+	case "disposevar":
+		// prefer a variable that shadows an outer one: the outer one must be back afterwards
+		var sh []string
+		for _, n := range vars {
+			for x := sc; x != nil; x = x.parent {
+				if _, ok := x.vars[n]; ok {
+					if !x.boundary && x.parent != nil && x.parent.findVar(n) != nil {
+						sh = append(sh, n)
+					}
+					break
+				}
+			}
+		}
+		if len(sh) > 0 && g.pct("disposeShadowing", 70) {
+			vars = sh
+		}
+		d.Name = fw.Pick(g.t, "dname", vars)
+		for x := sc; x != nil; x = x.parent {
+			if _, ok := x.vars[d.Name]; ok {
+				delete(x.vars, d.Name)
+				break
+			}
+			if x.boundary {
+				break
+			}
+		}
+	case "disposefun":
+		d.Name = fw.Pick(g.t, "dname", funs)
+		for x := sc; x != nil; x = x.parent {
+			if x.funs[d.Name] {
+				delete(x.funs, d.Name)
+				delete(x.sigs, d.Name)
+				break
+			}
+			if x.boundary {
+				break
+			}
+		}
+	default:
+		d.Name = fw.Pick(g.t, "dname", tabs)
+		for x := sc; x != nil; x = x.parent {
+			if x.tabs[d.Name] {
+				delete(x.tabs, d.Name)
+				break
+			}
+			if x.boundary {
+				break
+			}
+		}
+	}
+	out := []ref.PStmt{d}
+	if !g.noPrint && g.pct("afterDispose", 60) {
+		out = g.printVisible(sc, out)
+	}
+	return out, true
+}
+
+func contains(l []string, s string) bool {
+	for _, x := range l {
+		if x == s {
+			return true
+		}
+	}
+	return false
 }
 
 // guarded wraps a control transfer into an IF most of the time.
@@ -707,7 +962,7 @@ func (g *gen) whileCondStmt(sc *gScope) ([]ref.PStmt, bool) {
 		body.vars[name] = &gVar{}
 		head = append(head, adv, sh)
 	case "func":
-		free := notHere(funPool, func(n string) bool { return sc.funs[n] })
+		free := notHere(funPool, func(n string) bool { return sc.funs[n] || sc.recName(n) })
 		if len(free) == 0 {
 			return nil, false
 		}
@@ -901,6 +1156,9 @@ func (g *gen) cursorStmt(sc *gScope) []ref.PStmt {
 	}
 	name := fw.Pick(g.t, "cur", vis)
 	c := sc.findCur(name)
+	if c.pseudo && (w < 45 || (w >= 60 && w < 67)) {
+		w = 70 // no OPEN / CLOSE / DISPOSE of a pseudo cursor: fetch instead
+	}
 	switch {
 	case w < 45:
 		k := "open"
@@ -1120,7 +1378,7 @@ func (g *gen) whileIn(sc *gScope, name string) []ref.PStmt {
 		r.E = lit(int64(g.intn("lit", 0, 9)))
 		out = append(out, r)
 	}
-	if g.chance("closeAfter", 40) {
+	if !c.pseudo && g.chance("closeAfter", 40) {
 		cl := g.stmt("close")
 		cl.Name = name
 		c.open = false
@@ -1197,7 +1455,7 @@ func (g *gen) tableStmt(sc *gScope) []ref.PStmt {
 func (g *gen) funcStmt(sc *gScope) []ref.PStmt {
 	var free, shadow []string
 	for _, n := range funPool {
-		if !sc.funs[n] {
+		if !sc.funs[n] && !sc.recName(n) {
 			free = append(free, n)
 			if sc.findFun(n) {
 				shadow = append(shadow, n)
@@ -1230,14 +1488,69 @@ func (g *gen) funcStmt(sc *gScope) []ref.PStmt {
 	} else {
 		s.Name = fw.Pick(g.t, "fname", free)
 	}
-	s.Var = fw.Pick(g.t, "param", varPool)
+	recursive := g.chance("recursive", 45)
+	// parameters: 1 (45%), 2, 3 or none, under distinct pool names; a suffix of them
+	// (sometimes all) is optional, and the DEFAULT of an optional parameter is a
+	// literal or - most of the time - an expression over the parameters before it
+	names := rapid.Permutation(varPool).Draw(g.t, "params")
+	np := 1
+	switch w := fw.Uniform(g.t, "nparams", 100); {
+	case w < 45:
+	case w < 75:
+		np = 2
+	case w < 94:
+		np = 3
+	default:
+		np = 0
+	}
+	if recursive {
+		np = 1
+		if g.pct("recParam2", 50) {
+			np = 2
+		}
+	}
+	nopt := 0
+	switch {
+	case recursive:
+		nopt = np - 1
+	case np >= 2 && g.pct("optional", 70):
+		nopt = fw.Range(g.t, "nopt", 1, np-1)
+		if g.pct("allOptional", 15) {
+			nopt = np
+		}
+	case np == 1 && g.pct("optional1", 20):
+		nopt = 1
+	}
 	bs := newScope(sc)
 	bs.boundary, bs.inFunc, bs.inLoop = true, true, false
 	bs.funcDepth = sc.funcDepth + 1
-	recursive := g.chance("recursive", 45)
-	bs.vars[s.Var] = &gVar{protected: recursive}
+	bs.hideFun = s.Name
 	if recursive {
-		s.Body = g.recursiveBody(bs, s.Name, s.Var)
+		bs.recFun = s.Name
+	}
+	var params []ref.PParam
+	for i := 0; i < np; i++ {
+		pp := ref.PParam{Name: names[i]}
+		if i >= np-nopt {
+			pp.Def = g.defaultExpr(names[:i], recursive)
+		}
+		params = append(params, pp)
+		bs.vars[pp.Name] = &gVar{protected: recursive && i == 0, keep: recursive}
+	}
+	switch {
+	case np == 0:
+		s.NoParams = true
+	case np == 1 && nopt == 0:
+		s.Var = names[0]
+	default:
+		s.Var, s.Params = names[0], params
+	}
+	if recursive {
+		q := ""
+		if np == 2 {
+			q = names[1]
+		}
+		s.Body = g.recursiveBody(bs, s.Name, s.Var, q)
 	} else {
 		s.Body = g.block(bs, 1, 5)
 		if n := len(s.Body); n == 0 || s.Body[n-1].K != "return" {
@@ -1246,11 +1559,12 @@ func (g *gen) funcStmt(sc *gScope) []ref.PStmt {
 			s.Body = append(s.Body, r)
 		}
 	}
+	sc.sigs[s.Name] = gSig{n: np, req: np - nopt}
 	sc.funs[s.Name] = true
 	out := []ref.PStmt{s}
 	// use it right away most of the time
 	if g.chance("callNow", 70) {
-		call := &ref.PExpr{K: "call", Name: s.Name, A: lit(int64(g.intn("arg", 0, 5)))}
+		call := g.mkCall(sc, s.Name, lit(int64(g.intn("arg", 0, 5))))
 		if g.noPrint {
 			if name, ok := g.declName(sc); ok {
 				v := g.stmt("var")
@@ -1271,7 +1585,111 @@ func (g *gen) funcStmt(sc *gScope) []ref.PStmt {
 // recursiveBody: factorial / fibonacci shaped recursion, bounded because the
 // recursive calls sit behind `@p >= 1 AND @p <= 4`, take @p - 1 / @p - 2, and
 // the parameter can neither be assigned nor shadowed in the block of the calls.
-func (g *gen) recursiveBody(bs *gScope, name, p string) []ref.PStmt {
+// aggStmt: DECLARE name AGGREGATE (cursor [, parameters]) with a generated body.
+// The pseudo cursor carries a pool name (so it shadows an outer cursor of that
+// name for the time of the invocation), the parameters follow the rules of
+// funcStmt; the body usually walks the grouped values with WHILE .. IN before
+// the ordinary generated statements, and the aggregate is used right away most
+// of the time.
+func (g *gen) aggStmt(sc *gScope) ([]ref.PStmt, bool) {
+	free := filter(funPool, func(n string) bool { return !sc.funs[n] && !sc.recName(n) })
+	if len(free) == 0 {
+		return nil, false
+	}
+	s := g.stmt("agg")
+	if shadow := filter(free, func(n string) bool { return sc.findFun(n) }); len(shadow) > 0 && g.pct("fshadow", 70) {
+		s.Name = fw.PickU(g.t, "fname", shadow)
+	} else {
+		s.Name = fw.PickU(g.t, "fname", free)
+	}
+	s.Cur = fw.PickU(g.t, "aggCur", curPool)
+	if vis := sc.visCurs(); len(vis) > 0 && g.pct("aggCurShadows", 70) {
+		// the name of a cursor that is visible where the aggregate is declared (and most likely where it is called)
+		s.Cur = fw.PickU(g.t, "aggCur", vis)
+	}
+	names := rapid.Permutation(varPool).Draw(g.t, "params")
+	np := fw.Weighted(g.t, "aggParams", []int{40, 35, 25})
+	nopt := 0
+	if np > 0 && g.pct("optional", 65) {
+		nopt = fw.Range(g.t, "nopt", 1, np)
+	}
+	bs := newScope(sc)
+	bs.boundary, bs.inFunc, bs.inLoop = true, true, false
+	bs.funcDepth = sc.funcDepth + 1
+	bs.hideFun = s.Name
+	bs.curs[s.Cur] = &gCur{open: true, pseudo: true}
+	for i := 0; i < np; i++ {
+		pp := ref.PParam{Name: names[i]}
+		if i >= np-nopt {
+			pp.Def = g.defaultExpr(names[:i], false)
+		}
+		s.Params = append(s.Params, pp)
+		bs.vars[pp.Name] = &gVar{}
+	}
+	if g.pct("aggWalk", 75) {
+		// an accumulator under a free pool name (or a private one), then the walk over the grouped values
+		acc := g.stmt("var")
+		acc.Kw, acc.E = "VAR", lit(0)
+		if name, ok := g.declName(bs); ok {
+			acc.Name = name
+		} else {
+			acc.Name = "z" + strconv.Itoa(acc.ID)
+		}
+		bs.vars[acc.Name] = &gVar{}
+		s.Body = append(s.Body, acc)
+		s.Body = append(s.Body, g.whileIn(bs, s.Cur)...)
+	}
+	s.Body = append(s.Body, g.block(bs, 1, 4)...)
+	if n := len(s.Body); s.Body[n-1].K != "return" {
+		r := g.stmt("return")
+		r.E = g.simple(bs, 0)
+		s.Body = append(s.Body, r)
+	}
+	sc.funs[s.Name] = true
+	sc.sigs[s.Name] = gSig{n: np, req: np - nopt, agg: true}
+	out := []ref.PStmt{s}
+	if g.pct("callNow", 75) {
+		call := g.mkCall(sc, s.Name, nil)
+		if g.noPrint {
+			if name, ok := g.declName(sc); ok {
+				v := g.stmt("var")
+				v.Kw, v.Name, v.E = "VAR", name, call
+				sc.vars[name] = &gVar{}
+				out = append(out, v)
+			}
+		} else {
+			out = append(out, g.printStmt(call))
+			if g.chance("afterPrint", 50) {
+				out = g.printVisible(sc, out)
+			}
+		}
+	}
+	return out, true
+}
+
+// defaultExpr: the DEFAULT value of an optional parameter that follows the parameters earlier.
+func (g *gen) defaultExpr(earlier []string, always bool) *ref.PExpr {
+	if len(earlier) == 0 || !(always || g.pct("defOverParam", 75)) {
+		return lit(int64(g.intn("deflit", 0, 9)))
+	}
+	p := varE(fw.Pick(g.t, "defp", earlier))
+	switch fw.Uniform(g.t, "defk", 5) {
+	case 0:
+		return p
+	case 1:
+		return bin("*", p, lit(2))
+	case 2:
+		return bin("+", p, lit(int64(g.intn("deflit", 1, 9))))
+	case 3:
+		return bin("+", p, varE(fw.Pick(g.t, "defp2", earlier)))
+	}
+	return bin("-", lit(int64(g.intn("deflit", 10, 19))), p)
+}
+
+// q (optional): a second, optional parameter whose DEFAULT reads the first one;
+// the base case returns it, so the result depends on the innermost invocation
+// having evaluated the default with ITS OWN first parameter.
+func (g *gen) recursiveBody(bs *gScope, name, p, q string) []ref.PStmt {
 	others := filter(varPool, func(n string) bool { return n != p })
 	x, y := others[0], others[1]
 	if g.chance("swapXY", 50) {
@@ -1297,8 +1715,8 @@ func (g *gen) recursiveBody(bs *gScope, name, p string) []ref.PStmt {
 	}
 	d1 := g.stmt("var")
 	d1.Kw, d1.Name = "VAR", x
-	d1.E = &ref.PExpr{K: "call", Name: name, A: bin("-", varE(p), lit(1))}
-	ib.vars[x] = &gVar{}
+	d1.E = g.recCall(ib, name, p, q, 1)
+	ib.vars[x] = &gVar{keep: true}
 	blk = append(blk, d1)
 	delete(ib.noDecl, x)
 	if g.chance("f2", 60) {
@@ -1311,8 +1729,8 @@ func (g *gen) recursiveBody(bs *gScope, name, p string) []ref.PStmt {
 	if fib {
 		d2 := g.stmt("var")
 		d2.Kw, d2.Name = "DECLARE", y
-		d2.E = &ref.PExpr{K: "call", Name: name, A: bin("-", varE(p), lit(2))}
-		ib.vars[y] = &gVar{}
+		d2.E = g.recCall(ib, name, p, q, 2)
+		ib.vars[y] = &gVar{keep: true}
 		blk = append(blk, d2)
 		ret.E = bin("+", varE(x), varE(y))
 	} else {
@@ -1331,9 +1749,25 @@ func (g *gen) recursiveBody(bs *gScope, name, p string) []ref.PStmt {
 	if n := len(body); body[n-1].K != "return" {
 		r := g.stmt("return")
 		r.E = lit(int64(g.intn("base", 0, 3)))
+		if q != "" {
+			r.E = bin("+", varE(q), r.E)
+		}
 		body = append(body, r)
 	}
 	return body
+}
+
+// recCall: the recursive call name(@p - dec[, second argument]); the optional second argument is omitted most of the time.
+func (g *gen) recCall(sc *gScope, name, p, q string, dec int64) *ref.PExpr {
+	first := bin("-", varE(p), lit(dec))
+	if q == "" {
+		return &ref.PExpr{K: "call", Name: name, A: first}
+	}
+	c := &ref.PExpr{K: "call", Name: name, Multi: true, Args: []*ref.PExpr{first}}
+	if g.pct("recPassSecond", 25) {
+		c.Args = append(c.Args, lit(int64(g.intn("arg", 0, 5))))
+	}
+	return c
 }
 
 // fillers: ordinary statements that never end the block.
@@ -1428,9 +1862,21 @@ var errClassNames = map[string]string{
 	"E16/90181": ref.PErrUndeclTable, // a table name that is not a temporary table falls through to the file system
 }
 
+func init() {
+	// codes taken from csvq's own constructors so that the table cannot drift
+	probe := func(err error, class string) {
+		errClassNames[run.ErrClass(err)] = class
+	}
+	probe(query.NewFunctionArgumentLengthError(parser.Identifier{Literal: "f"}, "f", []int{1}), ref.PErrArgLength)
+	probe(query.NewUndeclaredTemporaryTableError(parser.Identifier{Literal: "t"}), ref.PErrUndeclTemp)
+}
+
 func csvqErrClass(err error) string {
 	if err == nil {
 		return ""
+	}
+	if fe, ok := err.(*query.ForcedExit); ok {
+		return ref.PErrForcedExit + ":" + strconv.Itoa(fe.Code())
 	}
 	c := run.ErrClass(err)
 	if n, ok := errClassNames[c]; ok {
@@ -1616,6 +2062,20 @@ func shape(prog []ref.PStmt) string {
 			}
 		case "if":
 			b.WriteString(s.Form)
+		case "disposevar", "disposefun", "disposetab":
+			b.WriteString(s.K[7:8] + s.Name)
+		}
+		if s.K == "agg" {
+			b.WriteString(s.Name + "~" + s.Cur)
+		}
+		if (s.K == "func" || s.K == "agg") && (len(s.Params) > 0 || s.NoParams) {
+			opt := 0
+			for _, p := range s.Params {
+				if p.Def != nil {
+					opt++
+				}
+			}
+			fmt.Fprintf(&b, "/%d.%d", len(s.Params), opt)
 		}
 		b.WriteByte(' ')
 	})
@@ -1664,7 +2124,7 @@ func checkProgOpt(c progCase, opt ref.POpt) (fw.Outcome, *fw.Violation) {
 	if v := compare(c.Prog, text, want, got); v != nil {
 		return o, v
 	}
-	if want.Stats.ShadowReadAfter > 0 || want.Stats.MaxRecDepth >= 2 {
+	if want.Stats.ShadowReadAfter > 0 || want.Stats.MaxRecDepth >= 2 || want.Stats.DefaultOverShadow > 0 {
 		o.Classes = append(o.Classes, "nontrivial")
 		o.Fingerprint = shape(c.Prog)
 	}
@@ -1675,7 +2135,7 @@ func TestC15Procedure(t *testing.T) {
 	fw.Run(t, fw.Spec[progCase]{
 		ID: "C15", Name: "procedure", Quick: 60000, Thorough: 1200000,
 		Gen: genProg, Check: checkProg,
-		Rule: "procedures of <=40 statements, block depth <=5, nesting IF/ELSEIF/ELSE, CASE (both forms), counter-bounded WHILE, WHILE whose condition reads a pool-named variable / calls a pool-named function / tests a pool-named cursor (IS OPEN, IS IN RANGE) that the body re-declares after advancing the outer one (35% of loops; an outer counter with IF .. THEN BREAK bounds them), WHILE..IN cursor loops (all bounded the same way; 40% re-declare the fetch variable and/or the loop cursor in the body), OPEN/CLOSE/FETCH (all positions)/DISPOSE CURSOR and the cursor status expressions at any depth, declarations of all four kinds also executed dynamically in place (EXECUTE string, EXECUTE of a PREPAREd statement, SOURCE of a generated file; 18% of loops declare only that way), BREAK/CONTINUE/RETURN/EXIT, (nested, recursive factorial/fibonacci-shaped) scalar functions and calls, with variables, cursors, temporary tables and functions (re)declared under names from 3-name pools at every level; executed in-process and compared (PRINT lines, terminating error class, EXIT flow) with an environment-stack reference interpreter; non-trivial = an outer object is used again after the block that shadowed it ended, or a recursion depth >= 2; distinct by block tree + name pattern",
+		Rule: "procedures of <=40 statements, block depth <=5, nesting IF/ELSEIF/ELSE, CASE (both forms), counter-bounded WHILE, WHILE whose condition reads a pool-named variable / calls a pool-named function / tests a pool-named cursor (IS OPEN, IS IN RANGE) that the body re-declares after advancing the outer one (35% of loops; an outer counter with IF .. THEN BREAK bounds them), WHILE..IN cursor loops (all bounded the same way; 40% re-declare the fetch variable and/or the loop cursor in the body), OPEN/CLOSE/FETCH (all positions)/DISPOSE CURSOR and the cursor status expressions at any depth, declarations of all four kinds also executed dynamically in place (EXECUTE string, EXECUTE of a PREPAREd statement, SOURCE of a generated file; 18% of loops declare only that way), BREAK/CONTINUE/RETURN/EXIT [code 1-3: forced-exit error of that code], (nested, recursive factorial/fibonacci-shaped) scalar functions with 0-3 parameters under permuted pool names of which a suffix (sometimes all) is optional - DEFAULT a literal or, 75%, an expression over the EARLIER parameters (@b DEFAULT @a * 2); half of the recursive functions carry an optional second parameter whose DEFAULT reads the first and which the base case returns -, calls with all required arguments plus a drawn prefix of the optional ones (70% omit at least one; arguments are literals or expressions over the CALLER's variables, which often carry the parameters' names; one deliberate wrong argument count), user-defined AGGREGATE functions (35% of the function declarations: pseudo cursor under a pool name - 70% the name of a cursor visible at the declaration -, 0-2 parameters with the same DEFAULT rules, body = accumulator + WHILE..IN over the pseudo cursor + generated statements incl. FETCH / status expressions on it and inner cursors shadowing it) called as (SELECT ag(v, args..) FROM <visible temporary table | 1-4 inline records>), DISPOSE @variable / DISPOSE FUNCTION / DISPOSE VIEW of objects of the current or an outer block (3.5% of the statements; 70% of the variable disposals pick a variable that shadows an outer one, which must be visible again afterwards; one deliberate DISPOSE of a missing object), with variables, cursors, temporary tables and functions (re)declared under names from 3-name pools at every level; executed in-process and compared (PRINT lines, terminating error class, EXIT flow) with an environment-stack reference interpreter (parameters are bound in declaration order inside the invocation's own block: a DEFAULT sees the parameters before it and nothing of the caller); non-trivial = an outer object is used again after the block / DISPOSE that ended its shadowing, or a recursion depth >= 2, or a DEFAULT was evaluated that reads an earlier parameter while a variable of that name is visible in the caller's chain; distinct by block tree + name pattern + signatures",
 		Assumptions: []string{
 			"function bodies use only parameters, locals and lexically visible functions; any name that resolves differently under lexical and dynamic (caller chain) scoping discards the case",
 			"outcomes that depend on an undocumented evaluation order (two errors in one statement, an error beside a function call with side effects, CLOSE of a closed cursor, the variable left by the failing fetch of WHILE..IN) are discarded or overwritten",
@@ -1683,6 +2143,9 @@ func TestC15Procedure(t *testing.T) {
 			"statements run by EXECUTE / SOURCE act in the block that contains them (manual: SOURCE executes the file 'as a part of the procedure', EXECUTE 'a string as statements'); PREPARE is generated at the top of the program only (prepared statements are not block-scoped)",
 			"values are integers and NULL with magnitude <= 2^40; calls deeper than 12 and runs longer than 4000 steps are discarded",
 			"avoidKnownTempTableShadow=true: executed temporary-table declarations that would shadow an outer table are removed by the generator (finding temp_table_shadow_redeclared)",
+			"a DEFAULT value that reads its own or a later parameter, or that calls a function, is not predicted (discard); DEFAULT values otherwise follow the closedness rule of function bodies (a name that is not an earlier parameter resolves outside the invocation: discard)",
+			"a wrong argument count beside another error of the same call, a scalar function used as an aggregate or vice versa (possible through dynamic resolution only), OPEN / CLOSE / DISPOSE of a pseudo cursor, DISPOSE of a function that is running or, from inside a function body, of a function declared outside that body: discarded",
+			"the grouped values reach an aggregate's pseudo cursor in record order (single group, CPU 1, < 10 records)",
 		},
 	})
 }
@@ -1700,6 +2163,9 @@ type concCase struct {
 	Form string `json:"form,omitempty"`
 	K    int64  `json:"k,omitempty"`   // where: threshold
 	Fn2  string `json:"fn2,omitempty"` // two: the second function
+	// further (literal) arguments after INTEGER(n) in the calls of Fn / Fn2; optional parameters beyond them take their DEFAULT
+	Extra  []int64 `json:"extra,omitempty"`
+	Extra2 []int64 `json:"extra2,omitempty"`
 }
 
 // concForms: the per-record evaluation sites from which the invocations are
@@ -1743,7 +2209,28 @@ func genConc(t *rapid.T) concCase {
 		_ = calls
 		return r
 	})
-	c := concCase{Decls: prog, Fn: fn, Args: args, CPU: 4, Text: ref.RenderProc(prog)}
+	// further arguments: all required ones, and a drawn prefix of the optional ones (mostly omitted)
+	extraFor := func(name string) []int64 {
+		sg := top.findSig(name)
+		k := sg.req
+		if k < 1 {
+			k = 1
+		}
+		if sg.n > k && g.pct("passOptional", 35) {
+			k = fw.Range(g.t, "argc", k, sg.n)
+		}
+		var ex []int64
+		for i := 1; i < k; i++ {
+			ex = append(ex, int64(g.intn("extra", 0, 6)))
+		}
+		return ex
+	}
+	extra := extraFor(fn)
+	repairTableShadow(prog, func() ref.PResult {
+		r, _ := ref.RunProcThenCallsExtra(prog, fn, args, extra, false, ref.POpt{MaxSteps: 1500})
+		return r
+	})
+	c := concCase{Decls: prog, Fn: fn, Args: args, CPU: 4, Text: ref.RenderProc(prog), Extra: extra}
 	c.Form = fw.Pick(t, "form", concForms)
 	switch c.Form {
 	case "where":
@@ -1759,9 +2246,13 @@ func genConc(t *rapid.T) concCase {
 	if c.Form != "" {
 		c.CPU = fw.Pick(t, "cpu", []int{2, 4, 4, 8})
 	}
+	if c.Form == "two" {
+		c.Extra2 = extra
+	}
 	if c.Form == "two" && c.Fn2 != fn {
+		c.Extra2 = extraFor(c.Fn2)
 		repairTableShadow(prog, func() ref.PResult {
-			r, _ := ref.RunProcThenCalls(prog, c.Fn2, args, ref.POpt{MaxSteps: 1500})
+			r, _ := ref.RunProcThenCallsExtra(prog, c.Fn2, args, c.Extra2, false, ref.POpt{MaxSteps: 1500})
 			return r
 		})
 		c.Text = ref.RenderProc(prog)
@@ -1771,8 +2262,17 @@ func genConc(t *rapid.T) concCase {
 		fw.AddExtra("excluded:update_form_with_dml_in_function", 1)
 		c.Form = "two"
 		c.Fn2 = fn
+		c.Extra2 = c.Extra
 	}
 	return c
+}
+
+func extraSQL(extra []int64) string {
+	var b strings.Builder
+	for _, x := range extra {
+		fmt.Fprintf(&b, ", %d", x)
+	}
+	return b.String()
 }
 
 // csvq holds the transaction's (non-reentrant) operation mutex for the whole of
@@ -1803,7 +2303,7 @@ func performsDML(prog []ref.PStmt) bool {
 
 // concQuery renders the statement(s) of the case's form.
 func concQuery(c concCase) string {
-	f := fmt.Sprintf("%s(INTEGER(n))", c.Fn)
+	f := fmt.Sprintf("%s(INTEGER(n)%s)", c.Fn, extraSQL(c.Extra))
 	switch c.Form {
 	case "where":
 		return fmt.Sprintf("SELECT id FROM big WHERE %s >= %d;\n", f, c.K)
@@ -1812,7 +2312,7 @@ func concQuery(c concCase) string {
 	case "groupby":
 		return fmt.Sprintf("SELECT COUNT(*) AS c, MIN(INTEGER(n)) AS m FROM big GROUP BY %s;\n", f)
 	case "two":
-		return fmt.Sprintf("SELECT id, n, %s AS r, %s(INTEGER(n)) AS r2 FROM big;\n", f, c.Fn2)
+		return fmt.Sprintf("SELECT id, n, %s AS r, %s(INTEGER(n)%s) AS r2 FROM big;\n", f, c.Fn2, extraSQL(c.Extra2))
 	case "update":
 		return fmt.Sprintf("DECLARE c15upd VIEW (id, n, r) AS SELECT id, n, -1 FROM big;\nUPDATE c15upd SET r = %s;\nSELECT id, n, r FROM c15upd;\n", f)
 	}
@@ -1832,7 +2332,7 @@ func checkConc(c concCase) (fw.Outcome, *fw.Violation) {
 		return o, nil
 	}
 	text := ref.RenderProcDir(c.Decls, emptyDir("c15conc"))
-	want, calls := ref.RunProcThenCalls(c.Decls, c.Fn, c.Args, ref.POpt{MaxSteps: 1500})
+	want, calls := ref.RunProcThenCallsExtra(c.Decls, c.Fn, c.Args, c.Extra, false, ref.POpt{MaxSteps: 1500})
 	if want.Discard != "" || want.Err != "" || want.Exit {
 		o.Discard = true
 		fw.AddExtra("discard:prefix:"+want.Discard+want.Err, 1)
@@ -1842,7 +2342,7 @@ func checkConc(c concCase) (fw.Outcome, *fw.Violation) {
 	var calls2 map[int64]ref.PCallResult
 	if c.Form == "two" {
 		var w2 ref.PResult
-		w2, calls2 = ref.RunProcThenCalls(c.Decls, c.Fn2, c.Args, ref.POpt{MaxSteps: 1500})
+		w2, calls2 = ref.RunProcThenCallsExtra(c.Decls, c.Fn2, c.Args, c.Extra2, false, ref.POpt{MaxSteps: 1500})
 		if w2.Discard != "" || w2.Err != "" || w2.Exit {
 			o.Discard = true
 			return o, nil
@@ -2058,7 +2558,7 @@ func checkConc(c concCase) (fw.Outcome, *fw.Violation) {
 			}
 		}
 	}
-	if want.Stats.ShadowReadAfter > 0 || want.Stats.MaxRecDepth >= 2 {
+	if want.Stats.ShadowReadAfter > 0 || want.Stats.MaxRecDepth >= 2 || want.Stats.DefaultOverShadow > 0 {
 		o.Classes = append(o.Classes, "nontrivial")
 		distinct := map[int64]bool{}
 		for _, a := range c.Args {
@@ -2069,7 +2569,7 @@ func checkConc(c concCase) (fw.Outcome, *fw.Violation) {
 			ks = append(ks, int(a))
 		}
 		sort.Ints(ks)
-		o.Fingerprint = shape(c.Decls) + fmt.Sprint(ks) + c.Form
+		o.Fingerprint = shape(c.Decls) + fmt.Sprint(ks) + c.Form + fmt.Sprint(len(c.Extra), len(c.Extra2))
 	}
 	return o, nil
 }
@@ -2078,7 +2578,7 @@ func TestC15Concurrent(t *testing.T) {
 	fw.Run(t, fw.Spec[concCase]{
 		ID: "C15", Name: "concurrent", Quick: 5000, Thorough: 100000,
 		Gen: genConc, Check: checkConc,
-		Rule: "1-3 generated scalar functions (locals, nested blocks and loops, local cursors/tables/functions, recursion; no PRINT) declared beside top-level variables of the same names, then one statement that invokes f(INTEGER(n)) once per record of a 160-320 row CSV (n in 0..6) so that invocations run concurrently - forms: select clause (CPU 4), WHERE f(n) >= k, ORDER BY f(n), GROUP BY f(n), two functions per record, UPDATE .. SET r = f(n) on a temporary copy (CPU 2/4/8); every row's value / the kept rows / the row order / the groups must equal what the reference interpreter's f(n) gives; non-trivial = recursion depth >= 2 or an outer object used after its shadowing block ended; distinct by function shapes + argument set",
+		Rule: "1-3 generated scalar functions (0-3 parameters with optional ones whose DEFAULT reads earlier parameters, locals, nested blocks and loops, local cursors/tables/functions/aggregates, DISPOSE, recursion; no PRINT) declared beside top-level variables of the same names, then one statement that invokes f(INTEGER(n)[, literal arguments: all required ones and, 35%, some optional ones]) once per record of a 160-320 row CSV (n in 0..6) so that invocations run concurrently - forms: select clause (CPU 4), WHERE f(n) >= k, ORDER BY f(n), GROUP BY f(n), two functions per record, UPDATE .. SET r = f(n) on a temporary copy (CPU 2/4/8); every row's value / the kept rows / the row order / the groups must equal what the reference interpreter's f(n) gives; non-trivial = recursion depth >= 2, an outer object used after its shadowing block ended, or a DEFAULT evaluated over an earlier parameter whose name a top-level variable carries; distinct by function shapes + argument set + argument counts",
 		Assumptions: []string{
 			"same closedness / discard rules as the procedure check; functions that PRINT are not generated here because their interleaving is unordered",
 			"GROUP BY form: a NULL result of the function discards the case (grouping of NULL keys is not this property's business)",
@@ -2107,6 +2607,10 @@ type aggCase struct {
 	Rows       []aggRow `json:"rows"`
 	CPU        int      `json:"cpu"`
 	Repeats    int      `json:"repeats"`
+	// the last Optional parameters are declared with DEFAULT (a literal for the first parameter, else
+	// `@<previous parameter> * 2 + 1`); the last Omit (<= Optional) arguments are left out of the calls
+	Optional int `json:"optional,omitempty"`
+	Omit     int `json:"omit,omitempty"`
 }
 
 func genAgg(t *rapid.T) aggCase {
@@ -2115,6 +2619,10 @@ func genAgg(t *rapid.T) aggCase {
 	perm := rapid.Permutation(varPool).Draw(t, "names")
 	c.Params = perm[:np]
 	c.Slow = rapid.IntRange(-1, np-1).Draw(t, "slow")
+	if fw.Pct(t, "optional", 60) {
+		c.Optional = fw.Range(t, "noptional", 1, np)
+		c.Omit = fw.Range(t, "omit", 0, c.Optional)
+	}
 	c.SlowLoops = rapid.IntRange(0, 60).Draw(t, "loops")
 	c.Partitions = rapid.IntRange(4, 12).Draw(t, "partitions")
 	n := rapid.IntRange(96, 240).Draw(t, "rows")
@@ -2137,8 +2645,15 @@ func (c aggCase) program() string {
 	fmt.Fprintf(&b, "DECLARE slow FUNCTION (@a) AS BEGIN\n  VAR @k := 0;\n  WHILE @k < %d DO\n    @k := @k + 1;\n  END WHILE;\n  RETURN @a;\nEND;\n", c.SlowLoops)
 	// the local accumulator / fetch variable use the pool names the parameters left over, or private names
 	b.WriteString("DECLARE ag AGGREGATE (cur")
-	for _, p := range c.Params {
+	for i, p := range c.Params {
 		b.WriteString(", @" + p)
+		if i >= len(c.Params)-c.Optional {
+			if i == 0 {
+				b.WriteString(" DEFAULT 7")
+			} else {
+				fmt.Fprintf(&b, " DEFAULT @%s * 2 + 1", c.Params[i-1])
+			}
+		}
 	}
 	b.WriteString(") AS BEGIN\n  VAR @s := 0;\n  VAR @x;\n  WHILE @x IN cur DO\n")
 	switch c.Kind {
@@ -2156,7 +2671,7 @@ func (c aggCase) program() string {
 	}
 	b.WriteString(";\nEND;\n")
 	args := ""
-	for i := range c.Params {
+	for i := range c.Params[:len(c.Params)-c.Omit] {
 		a := fmt.Sprintf("INTEGER(p%d)", i+1)
 		if i == c.Slow {
 			a = "slow(" + a + ")"
@@ -2171,7 +2686,7 @@ func (c aggCase) program() string {
 
 func checkAgg(c aggCase) (fw.Outcome, *fw.Violation) {
 	o := fw.Outcome{}
-	if len(c.Params) < 1 || len(c.Params) > 3 || len(c.Rows) == 0 || c.Repeats < 1 {
+	if len(c.Params) < 1 || len(c.Params) > 3 || len(c.Rows) == 0 || c.Repeats < 1 || c.Optional < 0 || c.Optional > len(c.Params) || c.Omit < 0 || c.Omit > c.Optional {
 		o.Discard = true
 		return o, nil
 	}
@@ -2193,8 +2708,17 @@ func checkAgg(c aggCase) (fw.Outcome, *fw.Violation) {
 	want := make([]int64, len(c.Rows))
 	for i, r := range c.Rows {
 		w := agg[r.G] * 1000000
+		var eff [3]int64 // the value every parameter has in this record's invocation
 		for j := range c.Params {
-			w += r.P[j] * coef[j]
+			switch {
+			case j < len(c.Params)-c.Omit:
+				eff[j] = r.P[j]
+			case j == 0:
+				eff[j] = 7
+			default:
+				eff[j] = eff[j-1]*2 + 1
+			}
+			w += eff[j] * coef[j]
 		}
 		want[i] = w
 	}
@@ -2238,10 +2762,14 @@ func checkAgg(c aggCase) (fw.Outcome, *fw.Violation) {
 			}
 		}
 	}
-	o.Classes = append(o.Classes, "kind:"+c.Kind, fmt.Sprintf("params:%d", len(c.Params)), fmt.Sprintf("cpu:%d", c.CPU), fmt.Sprintf("slow_arg:%v", c.Slow >= 0))
+	o.Classes = append(o.Classes, "kind:"+c.Kind, fmt.Sprintf("params:%d", len(c.Params)), fmt.Sprintf("cpu:%d", c.CPU), fmt.Sprintf("slow_arg:%v", c.Slow >= 0),
+		fmt.Sprintf("optional:%d", c.Optional), fmt.Sprintf("omitted:%d", c.Omit))
+	if c.Omit > 0 && c.Omit < len(c.Params) {
+		o.Classes = append(o.Classes, "default_reads_earlier_parameter")
+	}
 	if len(agg) >= 2 && len(c.Rows)*len(agg) > 80 {
 		o.Classes = append(o.Classes, "nontrivial")
-		o.Fingerprint = fmt.Sprintf("%s|%v|%d|%d|%d|%d|%d", c.Kind, c.Params, c.Slow, c.SlowLoops/10, len(agg), c.CPU, len(c.Rows)/16)
+		o.Fingerprint = fmt.Sprintf("%s|%v|%d|%d|%d|%d|%d|%d.%d", c.Kind, c.Params, c.Slow, c.SlowLoops/10, len(agg), c.CPU, len(c.Rows)/16, c.Optional, c.Omit)
 	}
 	return o, nil
 }
@@ -2250,7 +2778,7 @@ func TestC15AggregateArgs(t *testing.T) {
 	fw.Run(t, fw.Spec[aggCase]{
 		ID: "C15", Name: "aggregate_args", Quick: 400, Thorough: 8000,
 		Gen: genAgg, Check: checkAgg,
-		Rule:        "a user-defined AGGREGATE with 1-3 extra parameters (named like top-level variables) called as ag(v, p1[, slow(p2)][, p3]) OVER (PARTITION BY g) on 96-240 records in 4-12 partitions with cpu in {2,4,8}, the statement repeated 6 times per case; every record's value must be aggregate(partition) * 10^6 + its own arguments (closed-form model); non-trivial = >= 2 partitions and records*partitions > 80 (csvq's threshold for evaluating partitions in several goroutines); distinct by (kind, parameter names, slow argument, partitions, cpu, size bucket)",
+		Rule:        "a user-defined AGGREGATE with 1-3 extra parameters (named like top-level variables; in 60% of the cases the last 1..n of them are optional with DEFAULT 7 for the first parameter and DEFAULT @<previous parameter> * 2 + 1 otherwise, and 0..all of the optional arguments are omitted from the calls) called as ag(v, p1[, slow(p2)][, p3]) OVER (PARTITION BY g) on 96-240 records in 4-12 partitions with cpu in {2,4,8}, the statement repeated 6 times per case; every record's value must be aggregate(partition) * 10^6 + its own arguments, an omitted argument being the DEFAULT computed from that record's own earlier parameter and never from the top-level variable of the same name (closed-form model); non-trivial = >= 2 partitions and records*partitions > 80 (csvq's threshold for evaluating partitions in several goroutines); distinct by (kind, parameter names, slow argument, partitions, cpu, size bucket)",
 		Assumptions: []string{"no race-detector mode in this check: each case repeats the statement 6 times (quick: 400 cases = 2400 concurrent statements); C13 covers the same sharing under -race"},
 	})
 }
